@@ -31,6 +31,7 @@ static uint64_t battery(int have_ep, int have_eb) {
 		hi(ep_param_get()); hi(ep_curve_is_endom()); hi(ep_curve_is_super()); hi(ep_curve_is_pairf()); hi(ep_curve_is_ctmap()); hi(ep_curve_embed()); hi(ep_param_level()); hi(ep_curve_opt_a()); hi(ep_curve_opt_b()); hi(fp_param_get());
 		item("curve flags and level");
 		hi(fp_prime_get_qnr()); hi(fp_prime_get_cnr()); hi(fp_prime_get_2ad()); hi((long)fp_prime_get_mod8()); hi((long)fp_prime_get_mod18()); item("field residue constants (qnr, cnr, 2-adicity, mod 8, mod 18)");
+		{ int l = 0; const int *sp = fp_prime_get_sps(&l); hi(l); hi(sp != NULL); if (sp && l > 0 && l < 32) hb(sp, (size_t)l * sizeof(int)); } item("sparse form of the modulus (fp_prime_get_sps)");
 		/* the curve-family parameter and its sparse form are derived state of PAIRING curves only: observed there */
 		if (ep_curve_is_pairf()) { int l = 0; const int *sp = fp_prime_get_par_sps(&l); hi(l); if (sp && l > 0) hb(sp, (size_t)l * sizeof(int)); bn_t x; bn_new(x); fp_prime_get_par(x); bn_write_bin(buf, 40, x); hb(buf, 40); hi(bn_sign(x)); item("curve-family parameter and its sparse form"); }
 		fp_t a, b; fp_new(a); fp_new(b); fp_set_dig(a, 12345); T_(fp_inv(b, a)); fp_write_bin(buf, RLC_FP_BYTES, b); hb(buf, RLC_FP_BYTES); { int r = 0; T_(r = fp_srt(b, a)); hi(r); if (r) { fp_write_bin(buf, RLC_FP_BYTES, b); hb(buf, RLC_FP_BYTES); } } fp_set_dig(a, 7); { int r = 0; T_(r = fp_smb(a)); hi(r); }
